@@ -49,7 +49,7 @@ class ViolationBuilder:
             message=f"Missing mandatory field: {field_name}",
             file_path=file_path,
             line=line,
-            column=1,
+            column=0,
             severity=Severity.ERROR,
             suggestion=f"Add '{field_name}:' field to file header",
         )
@@ -73,7 +73,7 @@ class ViolationBuilder:
             message=f"Temporal language detected: {description}",
             file_path=file_path,
             line=line,
-            column=1,
+            column=0,
             severity=Severity.ERROR,
             suggestion="Use present-tense factual descriptions without temporal references",
         )
